@@ -80,11 +80,13 @@ def secret_vars_in(elems):
 
 
 def render(m, v, how):
+    """how: display | debug | display# | debug#  (# = the alternate flag, {:#} / {:#?})"""
     out = []
-    if how == 'display':
-        display(m, Ptr(Cell(v), ()), out)
+    alt = how.endswith('#')
+    if how.startswith('display'):
+        display(m, Ptr(Cell(v), ()), out, alt)
     else:
-        debug(m, Ptr(Cell(v), ()), out)
+        debug(m, Ptr(Cell(v), ()), out, alt)
     return out
 
 
@@ -141,33 +143,43 @@ def run_shape(prog, shape, tier, seed, res):
         if shape[1] == 'keys':
             for nm, v in (('KSecretKey', ks), ('KDateKey', kd), ('KRegionKey', kr), ('KServiceKey', kv), ('KSigningKey', kg)):
                 observables.append((nm + ' Debug', render(m, v, 'debug')))
+                observables.append((nm + ' Debug#', render(m, v, 'debug#')))
                 observables.append((nm + ' Display', render(m, v, 'display')))
+                observables.append((nm + ' Display#', render(m, v, 'display#')))
             observables.append(('KeyTooLongError Debug', render(m, Adt('KeyTooLongError', None, []), 'debug')))
+            observables.append(('KeyTooLongError Debug#', render(m, Adt('KeyTooLongError', None, []), 'debug#')))
             observables.append(('KeyTooLongError Display', render(m, Adt('KeyTooLongError', None, []), 'display')))
+            observables.append(('KeyTooLongError Display#', render(m, Adt('KeyTooLongError', None, []), 'display#')))
         else:
             resp = Adt('GetSigningKeyResponse', None, [PRINCIPAL, SESSION, kg], ['principal', 'session_data', 'signing_key'])
             observables.append(('GetSigningKeyResponse Debug', render(m, resp, 'debug')))
+            observables.append(('GetSigningKeyResponse Debug#', render(m, resp, 'debug#')))
             rb = m.call('GetSigningKeyResponseBuilder::create_empty', [], None)
             rb.fields[2] = some(kg)
             req = Adt('GetSigningKeyRequest', None, [mk_string('AKID'), some(mk_string('tok')), date, mk_string('r'), mk_string('s')],
                       ['access_key', 'session_token', 'request_date', 'region', 'service'])
             observables.append(('GetSigningKeyRequest Debug', render(m, req, 'debug')))
+            observables.append(('GetSigningKeyRequest Debug#', render(m, req, 'debug#')))
             from .c04 import mk_auth
             sigbytes = [Int('u8', ctx.fresh_bv('sig%d' % i, 8)) for i in range(4)]
             for e in sigbytes:
                 ctx.assume(z3.And(z3.UGE(e.v, 0x30), z3.ULE(e.v, 0x39)))
             auth = mk_auth(conc_bytes('AKID/20150830/r/s/aws4_request'), instant(T0), sigbytes)
             observables.append(('SigV4Authenticator Debug', render(m, auth, 'debug')))
+            observables.append(('SigV4Authenticator Debug#', render(m, auth, 'debug#')))
             ar = Adt('SigV4AuthenticatorResponse', None, [PRINCIPAL, SESSION], ['principal', 'session_data'])
             observables.append(('SigV4AuthenticatorResponse Debug', render(m, ar, 'debug')))
+            observables.append(('SigV4AuthenticatorResponse Debug#', render(m, ar, 'debug#')))
             ab = m.call('SigV4AuthenticatorBuilder::create_empty', [], None)
             ab.fields[3] = some(VecObj(list(sigbytes), 'string'))
             observables.append(('SigV4AuthenticatorBuilder Debug', render(m, ab, 'debug')))
+            observables.append(('SigV4AuthenticatorBuilder Debug#', render(m, ab, 'debug#')))
             # CanonicalRequest Debug of a small request
             rq = Req('GET', b'/p', b'b=2&a=1', [('host', conc_bytes('h')), ('x-amz-date', conc_bytes('20150830T123600Z'))], b'xy').build()
             cr = m.call('CanonicalRequest::from_request_parts', [rq.parts, rq.body, options()], None)
             m.hash_order = 'two'
             observables.append(('CanonicalRequest Debug', render(m, cr.fields[0].fields[0], 'debug')))
+            observables.append(('CanonicalRequest Debug#', render(m, cr.fields[0].fields[0], 'debug#')))
         return observables, 'fmt', []
 
     def on_path(pr):
@@ -352,6 +364,37 @@ def conformance(prog, rp, seed, tier):
                 nat_logs = [' '.join(x.split(' ')[:1] + x.split(' ')[2:]) for x in nlogs]      # drop the target column
                 if oc not in ('ok', 'signature', 'sig-short', 'sig-long', 'sig-empty') and (msg != (texts[0] if texts else '') or mine_logs != nat_logs):
                     mism.append({'case': [carrier, oc], 'mirse': [msg[:80], mine_logs], 'native': [texts[0][:80] if texts else None, nat_logs]})
+    # renderings of the public value types (Debug / Display, plain and with the alternate flag) on a concrete secret
+    nat = rp.ask({'op': 'fmt', 'secret': AWS_SECRET, 'date': [2015, 8, 30], 'region': 'r', 'service': 's'})
+    nat_items = {it['what']: it['text'] for it in nat.get('items', [])}
+    out = []
+
+    def fbody(m, ctx):
+        m.x_generics = {'M': Int('usize', 44)}
+        ks = m.call('<KSecretKey<M> as FromStr>::from_str', [mk_str(conc_bytes(AWS_SECRET))], None).fields[0]
+        date = C.NaiveDate(2015, 8, 30)
+        kd = m.call('KSecretKey::to_kdate', [Ptr(Cell(ks), ()), date], None)
+        kr = m.call('KDateKey::to_kregion', [Ptr(Cell(kd), ()), str_ptr('r')], None)
+        kv = m.call('KRegionKey::to_kservice', [Ptr(Cell(kr), ()), str_ptr('s')], None)
+        kg = m.call('KServiceKey::to_ksigning', [Ptr(Cell(kv), ())], None)
+        items = {}
+        for nm, v in (('KSecretKey', ks), ('KDateKey', kd), ('KRegionKey', kr), ('KServiceKey', kv), ('KSigningKey', kg),
+                      ('KeyTooLongError', Adt('KeyTooLongError', None, []))):
+            for how, lab in (('debug', 'Debug'), ('debug#', 'Debug#'), ('display', 'Display'), ('display#', 'Display#')):
+                items['%s %s' % (nm, lab)] = render(m, v, how)
+        req = Adt('GetSigningKeyRequest', None, [mk_string('AKID'), some(mk_string('tok')), date, mk_string('r'), mk_string('s')],
+                  ['access_key', 'session_token', 'request_date', 'region', 'service'])
+        items['GetSigningKeyRequest Debug'] = render(m, req, 'debug')
+        items['GetSigningKeyRequest Debug#'] = render(m, req, 'debug#')
+        return {k: bytes(e.v for e in v).decode('latin-1') for k, v in items.items()}
+    engine.explore(prog, fbody, out.append)
+    if out[0].kind == 'panic':
+        mism.append({'case': 'fmt items', 'mirse': 'panic ' + out[0].value.msg})
+    else:
+        for k, v in out[0].value.items():
+            n += 1
+            if k not in nat_items or nat_items[k] != v:
+                mism.append({'case': 'fmt item ' + k, 'mirse': v[:200], 'native': (nat_items.get(k) or '<missing>')[:200]})
     return n, mism
 
 
